@@ -313,6 +313,16 @@ struct StackImpl : IStack {
     void copy_assign(const IStack & o) override { f = static_cast<const StackImpl<B> &>(o).f; }
     void move_assign(IStack & o) override { f = std::move(static_cast<StackImpl<B> &>(o).f); }
     std::unique_ptr<IStack> default_constructed() const override { return std::make_unique<StackImpl<B>>(); }
+    std::unique_ptr<IStack> rebuild_from_backend() const override
+    {
+        if constexpr (B::is_initial) {
+            return rebuild();
+        } else {
+            return std::make_unique<StackImpl<B>>(
+                F(covfie::make_parameter_pack(typename B::configuration_t(f.backend().get_configuration()), typename B::backend_t::owning_data_t(f.backend().get_backend())))
+            );
+        }
+    }
     std::unique_ptr<IStack> rebuild() const override
     {
         return std::make_unique<StackImpl<B>>(std::apply([](auto &&... a) { return F(covfie::make_parameter_pack(std::move(a)...)); }, rebuild_tuple<B>(f.backend())));
